@@ -709,6 +709,9 @@ pub enum Call {
     Clear,
     ActivateApi(&'static str),
     ResetNoLoop,
+    /// the first no-loop rule of the set is removed from the engine's knowledge base and added again under the same
+    /// name without no-loop (a hot replacement between two calls)
+    ReplaceWithoutNoLoop,
 }
 
 pub fn history_rule_sets() -> Vec<(&'static str, Vec<RSpec>)> {
@@ -796,7 +799,11 @@ impl System for HSys {
         if self.focus_alphabet {
             return vec![Call::Exec(0), Call::Focus("G"), Call::Focus("H"), Call::Pop, Call::Focus("MAIN"), Call::Clear, Call::ActivateApi("H")];
         }
-        vec![Call::Exec(0), Call::Exec(-20), Call::Exec(20), Call::Exec(-10), Call::Exec(10), Call::Focus("G"), Call::Focus("MAIN"), Call::Pop, Call::Clear, Call::ActivateApi("G"), Call::ResetNoLoop]
+        let mut v = vec![Call::Exec(0), Call::Exec(-20), Call::Exec(20), Call::Exec(-10), Call::Exec(10), Call::Focus("G"), Call::Focus("MAIN"), Call::Pop, Call::Clear, Call::ActivateApi("G"), Call::ResetNoLoop];
+        if self.rules.iter().any(|r| r.no_loop && !r.loa) && !self.rules.iter().any(|r| r.loa) {
+            v.push(Call::ReplaceWithoutNoLoop);
+        }
+        v
     }
     fn step(&mut self, op: &Call) -> Result<u64, Mismatch> {
         self.calls.push(format!("{:?}", op));
@@ -851,6 +858,19 @@ impl System for HSys {
                 self.eng.reset_no_loop_tracking();
                 self.em.fired_no_loop.clear();
                 Ok(5)
+            }
+            Call::ReplaceWithoutNoLoop => {
+                let i = self.rules.iter().position(|r| r.no_loop).unwrap();
+                let mut r = self.rules.remove(i);
+                r.no_loop = false;
+                let removed = self.eng.knowledge_base().remove_rule(&r.name).map_err(|e| Mismatch::new("replace_failed", format!("{:?}", e)))?;
+                if !removed {
+                    return Err(Mismatch::new("replace_failed", format!("remove_rule({}) found nothing", r.name)));
+                }
+                self.eng.knowledge_base().add_rule(r.build()).map_err(|e| Mismatch::new("replace_failed", format!("{:?}", e)))?;
+                self.em.fired_no_loop.remove(&r.name);
+                self.rules.push(r);
+                Ok(7)
             }
             Call::Exec(days) => {
                 let t = t_eval() + Duration::days(*days);
@@ -938,6 +958,7 @@ impl System for HSys {
             Call::Clear => "clear_agenda_focus",
             Call::ActivateApi(_) => "activate_agenda_group",
             Call::ResetNoLoop => "reset_no_loop_tracking",
+            Call::ReplaceWithoutNoLoop => "replace_rule",
         }
         .to_string()
     }
@@ -982,6 +1003,58 @@ pub fn run_focus_histories(opts: &Opts) -> Report {
     total.assumptions.push("focus stack as documented at AgendaManager::set_focus / pop_focus: a re-focused group moves to the top (no duplicates), pop returns to the entry below; popping a lone non-MAIN entry is left open".into());
     total.bound = format!("{} rule sets over agenda groups MAIN/G/H x all histories of <= {} calls over execute_at_time / set_agenda_focus(G|H|MAIN) / pop / clear / activate_agenda_group(H)", sets.len() - FOCUS_SETS_FROM, depth);
     total
+}
+
+/// date bounds with a fractional second: a rule is inactive up to the instant of its effective date and from the
+/// instant of its expiry on, at millisecond resolution (the bound instant itself is left open, as everywhere)
+pub fn run_subsecond_dates(_opts: &Opts) -> Report {
+    let t0 = Instant::now();
+    let mut rep = Report::new("date_bounds_with_fractional_seconds");
+    let base = t_eval();
+    let mut nt = 0u64;
+    for bound_ms in [1i64, 250, 500, 999, 1000, 1500] {
+        for kind in ["effective", "expires"] {
+            for via_grl in [false, true] {
+                for probe_ms in [bound_ms - 700, bound_ms - 1, bound_ms + 1, bound_ms + 700] {
+                    rep.count("evaluations", 1);
+                    let bound = base + Duration::milliseconds(bound_ms);
+                    let probe = base + Duration::milliseconds(probe_ms);
+                    let expect_fire = if kind == "effective" { probe > bound } else { probe < bound };
+                    let case = json!({"sub": "date_bounds_with_fractional_seconds", "kind": kind, "bound_ms_after_base": bound_ms, "probe_ms_after_base": probe_ms, "via_grl": via_grl});
+                    let kb = KnowledgeBase::new("kb");
+                    let built: Result<(), String> = if via_grl {
+                        let text = format!("rule \"D\" date-{} \"{}\" {{ when v9 == 0 then seq += \"D\"; }}", kind, bound.to_rfc3339_opts(chrono::SecondsFormat::Millis, true));
+                        GRLParser::parse_rules(&text).map_err(|e| format!("{:?}\n{}", e, text)).and_then(|rs| rs.into_iter().try_for_each(|r| kb.add_rule(r).map_err(|e| format!("{:?}", e))))
+                    } else {
+                        let mut r = RSpec::plain("D").build();
+                        r = if kind == "effective" { r.with_date_effective(bound) } else { r.with_date_expires(bound) };
+                        kb.add_rule(r).map_err(|e| format!("{:?}", e))
+                    };
+                    if let Err(e) = built {
+                        rep.violation(Violation { class: "rule_set_rejected".into(), detail: e, tags: vec![], case });
+                        continue;
+                    }
+                    let mut eng = RustRuleEngine::with_config(kb, EngineConfig { max_cycles: 1, timeout: None, enable_stats: false, debug_mode: false });
+                    let facts = mk_facts();
+                    match eng.execute_at_time(&facts, probe) {
+                        Err(e) => rep.violation(Violation { class: "execute_failed".into(), detail: format!("{:?}", e), tags: vec![], case }),
+                        Ok(_) => {
+                            nt += 1;
+                            let fired = !read_seq(&facts).is_empty();
+                            if fired != expect_fire {
+                                rep.violation(Violation { class: if fired { "rule_fired_outside_its_dates".into() } else { "rule_inside_its_dates_did_not_fire".into() }, detail: format!("date-{} at base+{} ms, evaluated at base+{} ms ({}): the rule {}", kind, bound_ms, probe_ms, if via_grl { "GRL" } else { "builder" }, if fired { "fired" } else { "did not fire" }), tags: vec!["fractional_second_bound".into()], case });
+                            }
+                        }
+                    }
+                }
+            }
+        }
+    }
+    rep.count("nontrivial", nt);
+    rep.sample(json!({"kind": "effective", "bound": "base + 500 ms", "probes": ["base - 200 ms", "base + 499 ms", "base + 501 ms", "base + 1200 ms"]}));
+    rep.bound = "date-effective / date-expires at base + {1, 250, 500, 999, 1000, 1500} ms x evaluation 700 ms and 1 ms before and after the bound x {builder, GRL text with millisecond timestamps}".into();
+    rep.wall_s = t0.elapsed().as_secs_f64();
+    rep
 }
 
 /// larger rule sets: equal-salience rules keep insertion order however many rules there are and in whatever
@@ -1077,6 +1150,9 @@ pub fn run(opts: &Opts) -> Vec<Report> {
     if crate::props::wants(opts, "many_rules") {
         out.push(run_many_rules(opts));
     }
+    if crate::props::wants(opts, "date_bounds_with_fractional_seconds") {
+        out.push(run_subsecond_dates(opts));
+    }
     out
 }
 
@@ -1154,6 +1230,16 @@ pub fn replay(case: &serde_json::Value) -> crate::props::ReplayResult {
             let set = case["ctx"]["rule_set"].as_u64().unwrap_or(0) as usize;
             let ch = crate::props::choices_of(case);
             crate::props::conv(explore::replay(&move || HSys::new(set), &ch))
+        }
+        "date_bounds_with_fractional_seconds" => {
+            // re-run the whole (small) family and report the recorded case if it still fails
+            let rep = run_subsecond_dates(&crate::Opts { tier: Tier::Quick, only: None, budget_s: 0.0 });
+            let hist = vec![case.to_string()];
+            let same = |c: &serde_json::Value| c["kind"] == case["kind"] && c["bound_ms_after_base"] == case["bound_ms_after_base"] && c["probe_ms_after_base"] == case["probe_ms_after_base"] && c["via_grl"] == case["via_grl"];
+            match rep.violations.iter().find(|v| same(&v.case)) {
+                Some(v) => Err((hist, v.class.clone(), v.detail.clone())),
+                None => Ok(hist),
+            }
         }
         "many_rules" => {
             let sal: Vec<i32> = case["saliences"].as_array().map(|a| a.iter().map(|x| x.as_i64().unwrap_or(0) as i32).collect()).unwrap_or_default();
